@@ -5,7 +5,7 @@ use std::io::Write;
 pub struct Record { pub contig: String, pub pos: usize, pub gts: Vec<String>, pub corrupt: Option<String> }
 
 #[derive(Clone, Debug)]
-pub struct CallSet { pub cols: Vec<String>, pub recs: Vec<Record>, pub extras: bool }
+pub struct CallSet { pub cols: Vec<String>, pub recs: Vec<Record>, pub extras: bool, pub wide: usize }
 
 fn max_allele(gts: &[String]) -> usize {
     gts.iter().flat_map(|g| g.split(|c| c == '/' || c == '|')).filter_map(|a| a.parse::<usize>().ok()).max().unwrap_or(0)
@@ -18,6 +18,8 @@ pub fn vcf_text(cs: &CallSet) -> Vec<u8> {
     for r in &cs.recs { if !contigs.contains(&r.contig.as_str()) { contigs.push(&r.contig); } }
     if contigs.is_empty() { contigs.push("1"); }
     for c in &contigs { s.push_str(&format!("##contig=<ID={c},length=100000000>\n")); }
+    // `wide` dummy INFO definitions ahead of FORMAT/GT push GT's index in the BCF string dictionary up (past 127: a 16-bit key)
+    for k in 0..cs.wide { s.push_str(&format!("##INFO=<ID=X{k},Number=1,Type=Integer,Description=\"d{k}\">\n")); }
     s.push_str("##FORMAT=<ID=GT,Number=1,Type=String,Description=\"Genotype\">\n");
     if cs.extras {
         s.push_str("##INFO=<ID=DP,Number=1,Type=Integer,Description=\"Depth\">\n");
@@ -130,6 +132,7 @@ pub fn raw_bcf_simple(cs: &CallSet) -> Option<Vec<u8>> {
     if contigs.is_empty() { contigs.push("1"); }
     let mut text = String::from("##fileformat=VCFv4.3\n##FILTER=<ID=PASS,Description=\"All filters passed\">\n");
     for c in &contigs { text.push_str(&format!("##contig=<ID={c},length=100000000>\n")); }
+    for k in 0..cs.wide { text.push_str(&format!("##INFO=<ID=X{k},Number=1,Type=Integer,Description=\"d{k}\">\n")); }
     text.push_str("##FORMAT=<ID=GT,Number=1,Type=String,Description=\"Genotype\">\n");
     text.push_str("#CHROM\tPOS\tID\tREF\tALT\tQUAL\tFILTER\tINFO\tFORMAT");
     for c in &cs.cols { text.push('\t'); text.push_str(c); }
@@ -154,7 +157,7 @@ pub fn raw_bcf_simple(cs: &CallSet) -> Option<Vec<u8>> {
         for a in &alts[..nalt] { typed_string(&mut shared, a.as_bytes()); }
         shared.push(0x00);                                // FILTER: empty vector
         let mut indiv = Vec::new();
-        typed_int_small(&mut indiv, 1);                   // FORMAT key: GT has dictionary index 1 (PASS = 0)
+        typed_int_small_or_16(&mut indiv, 1 + cs.wide);    // FORMAT key: GT's dictionary index (PASS = 0, then the INFO ids), in the smallest integer type that holds it
         let enc: Vec<Vec<u8>> = r.gts.iter().map(|g| gt_bytes(g)).collect::<Option<_>>()?;
         let maxlen = enc.iter().map(|e| e.len()).max().unwrap_or(1);
         if maxlen < 15 { indiv.push(((maxlen as u8) << 4) | 0x01); } else { return None; }
